@@ -45,6 +45,15 @@ def run_stage(chk, owner=None):
                 continue
             if code == 200 and not o["has_body"]:
                 bad_rows.append(("return_value-lost", o))
+        if o["via"] == "truncated":
+            # the body was cut short: the status line still decides (a 200 whose body is missing is a plain failure)
+            if code in (200, 202):
+                if code == 200 and (o["ok"] or o["disc"] or o["restart"] or o["save"]):
+                    bad_rows.append(("truncated-200-not-a-plain-failure", o))
+                continue
+            if o["status"] != code:
+                bad_rows.append(("truncated-body-hides-the-status", o))
+                continue
         if o["via"] == "timeout":
             # the client's own time-out: a transport failure (never "keep the data": the request may have been processed),
             # except that a 503/5xx status line that did arrive may be honoured
